@@ -15,7 +15,8 @@ EXPLANATION = (
     "length is the difference of consecutive landmarks or container length minus landmark; (R4) the multi-reference indexer "
     "decodes the slice's records with a real reference repository — violated today: it passes Repository::default(), so "
     "building the index of a noodles-written CRAM whose slices hold several references fails (known finding F12a); "
-    "(R5) crai writer and reader both handle six columns.")
+    "(R5) crai writer and reader both handle six columns."
+    " (R6) span accumulation: ReferenceSequenceContext::update builds the new slice span as (min(record start, previous start), max(record end, previous end)).")
 ASSUMPTIONS = ["container offsets come from Reader::position() before read_container (value not decided)"]
 NOT_DECIDED = ["that spans/offsets/landmarks in the index are TRUE (value-level)", "that the query equals the filtered scan for every file layout",
                "the container loader re-reads a container once per index entry: duplicates when one container holds several slices of the queried "
@@ -139,3 +140,68 @@ def run(ctx):
         ctx.ok("C19.R5", "crai records are constructed by %s" % sorted(rd)[:3], "")
     else:
         ctx.violation("C19.R5", "C19.R5/reader-ctor", "no crai reader constructs Record::new")
+
+    ctx.rule("C19.R6", "A7 span accumulation: ReferenceSequenceContext::update (the slice span that the slice header and the CRAI entry carry) "
+                       "takes the new start as min(record start, previous START) and the new end as max(record end, previous END)")
+    fu = ctx.anchor("C19.R6", "noodles_cram::container::reference_sequence_context::ReferenceSequenceContext::update")
+    if fu is not None:
+        names = {int(x[0]): x[1] for x in fu.names}
+        p_start = [l for l, n in names.items() if n == "alignment_start" and l <= fu.argc]
+        p_end = [l for l, n in names.items() if n == "alignment_end" and l <= fu.argc]
+        some = R.find_calls(fu, r"ReferenceSequenceContext::some$")
+        if not some or not p_start or not p_end or len(some[0][1]["args"]) < 3:
+            ctx.violation("C19.R6", "C19.R6/ANCHOR-MISSING/%s/shape" % fu.key, "update() no longer builds Self::some(id, start, end) from its parameters", fu.loc())
+        else:
+            b, c = some[0]
+            for what, arg, mm, plocal, acc in (("start", c["args"][1], "min", p_start[0], "alignment_start"),
+                                               ("end", c["args"][2], "max", p_end[0], "alignment_end")):
+                other = "alignment_end" if acc == "alignment_start" else "alignment_start"
+                calls = [(cb, cc) for cb, cc in fu.calls() if re.search(r"core::cmp::%s$|Ord::%s$" % (mm, mm), cc.get("f") or "")
+                         and R.derives_from_local(fu, arg, cc["dest"][0])]
+                ok = False
+                why = "no %s() feeds the new %s" % (mm, what)
+                for cb, cc in calls:
+                    kinds = [_operand_source(fu, a) for a in cc["args"]]
+                    from_param = ("param", plocal) in kinds
+                    from_prev = ("call", acc) in kinds
+                    from_wrong = ("call", other) in kinds
+                    if from_param and from_prev and not from_wrong:
+                        ok = True
+                    else:
+                        why = "%s(..) operands are %s" % (mm, kinds)
+                if ok:
+                    ctx.ok("C19.R6", "new %s = %s(record %s, previous %s)" % (what, mm, what, acc), "", fu.loc(b))
+                else:
+                    ctx.violation("C19.R6", "C19.R6/span-accumulation/%s/%s" % (fu.key, what),
+                                  "ReferenceSequenceContext::update does not accumulate the slice %s as %s(record %s, previous %s) (%s): the span "
+                                  "written to the slice header and copied into the CRAI entry does not cover every record" % (what, mm, what, acc, why), fu.loc(b))
+
+
+def _operand_source(f, op, depth=0):
+    """Narrow provenance of an operand: ('call', accessor name) | ('param', local) | ('?',). Follows copies and the fields
+    of a scrutinee tuple `(a, b, c)` back to the tuple's operands; deliberately does not follow stores through `*self`."""
+    l = C.op_local(op)
+    while l is not None and depth < 12:
+        depth += 1
+        if 1 <= l <= f.argc:
+            return ("param", l)
+        ds = [x for x in C.defs(f).get(l, []) if x[0] in ("=", "call")]
+        if len(ds) != 1:
+            return ("?",)
+        d = ds[0]
+        if d[0] == "call":
+            return ("call", (d[2].get("f") or "?").split("::")[-1])
+        rv = d[3]
+        if rv[0] == "use" and rv[1][0] in ("c", "m"):
+            base, proj = rv[1][1]
+            if not proj:
+                l = base
+                continue
+            # field k of a tuple aggregate
+            fld = [p for p in proj if isinstance(p, list) and p[0] == "f"]
+            td = [x for x in C.defs(f).get(base, []) if x[0] == "="]
+            if fld and len(td) == 1 and td[0][3][0] == "agg" and fld[0][1] < len(td[0][3][4]):
+                return _operand_source(f, td[0][3][4][fld[0][1]], depth)
+            return ("?",)
+        return ("?",)
+    return ("?",)
